@@ -779,6 +779,15 @@ impl FromStr for FormatSpec {
     }
 }
 
+/// An index is made of decimal digits only (`usize::from_str` would also accept a sign).
+fn parse_index(text: &str) -> Option<usize> {
+    if text.bytes().all(|b| b.is_ascii_digit()) {
+        text.parse().ok()
+    } else {
+        None
+    }
+}
+
 #[derive(Debug, PartialEq)]
 pub enum FieldNamePart {
     Attribute(String),
@@ -810,7 +819,7 @@ impl FieldNamePart {
                         if ch == ']' {
                             return if index.is_empty() {
                                 Err(FormatParseError::EmptyAttribute)
-                            } else if let Ok(index) = index.parse::<usize>() {
+                            } else if let Some(index) = parse_index(&index) {
                                 Ok(FieldNamePart::Index(index))
                             } else {
                                 Ok(FieldNamePart::StringIndex(index))
@@ -849,7 +858,7 @@ impl FieldName {
 
         let field_type = if first.is_empty() {
             FieldType::Auto
-        } else if let Ok(index) = first.parse::<usize>() {
+        } else if let Some(index) = parse_index(&first) {
             FieldType::Index(index)
         } else {
             FieldType::Keyword(first)
